@@ -122,7 +122,54 @@ def target(contract):
         func = raw.__func__
     else:
         func = raw
+    if getattr(contract, 'body_slice', None):
+        return sliced_function(func, contract.body_slice)
     return func
+
+
+def sliced_function(func, body_slice):
+    """native twin of verify.sliced_node: the same mechanical prefix / suffix of the real function's body,
+    compiled in the function's own globals (so that a replay runs exactly the analysed statements)"""
+    import textwrap
+    src = textwrap.dedent(inspect.getsource(func))
+    tree = ast.parse(src)
+    node = tree.body[0]
+    lines = src.splitlines()
+
+    def seg(st):
+        return '\n'.join(lines[st.lineno - 1:st.end_lineno])
+    if 'start_at' in body_slice or 'start_after' in body_slice:
+        marker = body_slice.get('start_at') or body_slice['start_after']
+        idx = None
+        for i, st in enumerate(node.body):
+            if marker in seg(st):
+                idx = i
+                if 'start_at' in body_slice:
+                    break
+        if idx is None:
+            raise ValueError(f"slice marker {marker!r} not found")
+        if 'start_after' in body_slice:
+            idx += 1
+        node.body = node.body[idx:]
+        node.args = ast.arguments(posonlyargs=[], args=[ast.arg(arg=a) for a in body_slice['args']], vararg=None,
+                                  kwonlyargs=[], kw_defaults=[], kwarg=None, defaults=[])
+    else:
+        body = []
+        found = False
+        for st in node.body:
+            if body_slice['stop_before'] in seg(st):
+                found = True
+                break
+            body.append(st)
+        if not found:
+            raise ValueError(f"slice marker {body_slice['stop_before']!r} not found")
+        ret = ast.Return(value=ast.parse(body_slice['result'], mode='eval').body)
+        node.body = body + [ret]
+    node.decorator_list = []
+    ast.fix_missing_locations(tree)
+    ns = {}
+    exec(compile(tree, f"<slice of {func.__qualname__}>", 'exec'), func.__globals__, ns)
+    return ns[node.name]
 
 
 def call_native(func, args):
